@@ -435,6 +435,48 @@ def part_index(ctx, cfg):
             ctx.distinct_nontrivial += 1
     ctx.sample({'op': 'gi/gk/gmi/gmk/xi/xk/mi/mk', 'line': lines[len(lines) // 2][:300]})
 
+# ---- the is_* / as_* accessors of Value (translated from value/mod.rs: tools/translate_vacc.py; model Model/VaccAst.v, C18_accessors_are_source)
+def ref_acc(val):
+    t = val[0]
+    sv = show(val)
+    isnum = t in 'uid'
+    def b(x):
+        return 't' if x else 'f'
+    as_i = as_u = as_f = 'none'
+    if t == 'u':
+        as_u = str(val[1]); as_i = str(val[1]) if val[1] <= 2**63 - 1 else 'none'; as_f = '%016x' % f64bits(float(val[1]))
+    elif t == 'i':
+        as_i = str(val[1]); as_f = '%016x' % f64bits(float(val[1]))
+    elif t == 'd':
+        as_f = '%016x' % val[1]
+    f = [('is_object', b(t == 'o')), ('as_object', sv if t == 'o' else 'none'), ('as_object_mut', sv if t == 'o' else 'none'),
+         ('is_array', b(t == 'a')), ('as_array', sv if t == 'a' else 'none'), ('as_array_mut', sv if t == 'a' else 'none'),
+         ('is_string', b(t == 's')), ('as_str', sv if t == 's' else 'none'), ('is_number', b(isnum)), ('as_number', sv if isnum else 'none'),
+         ('is_i64', b(as_i != 'none')), ('is_u64', b(t == 'u')), ('is_f64', b(t == 'd')), ('as_i64', as_i), ('as_u64', as_u), ('as_f64', as_f),
+         ('is_boolean', b(t in 'tf')), ('as_bool', t if t in 'tf' else 'none'), ('is_null', b(t == 'n')), ('as_null', 'unit' if t == 'n' else 'none')]
+    return ' '.join('%s=%s' % kv for kv in f)
+
+def part_acc(ctx, cfg):
+    rng = ctx.rng
+    nvals = 300 if ctx.tier == 'quick' else 3000
+    vals = [('u', x) for x in INTS] + [('i', x) for x in NEGS] + [('d', f64bits(x)) for x in FLOATS] + [('n',), ('t',), ('f',), ('s', b''), ('a', []), ('o', [])]
+    for _ in range(nvals):
+        root = rand_value(rng, rng.choice([0, 1, 2, 3]))
+        subs = [n for _, n in nodes(root)]
+        vals += subs if len(subs) <= 12 else subs[:4] + rng.sample(subs[4:], 8)
+    lines = ['acc ' + show(v) for v in vals]
+    io, mo = ctx.both(cfg, lines, impl_name='sjh_vacc', model_name='sjdriver_vacc')
+    for ln, val, a, m in zip(lines, vals, io, mo):
+        ctx.count('acc:' + val[0])
+        want = ref_acc(val)
+        if a != want:
+            ctx.violations.append(viol('accessors', ln, 'direct reading of the variant: ' + want, a))
+        elif a != m:
+            ctx.violations.append(viol('accessors-model-mismatch', ln, 'proved model: ' + m, a))
+        else:
+            ctx.distinct_nontrivial += 1
+    ctx.sample({'op': 'acc', 'line': lines[len(lines) // 2][:300]})
+
 # ---- PartialEq with primitives
 ITY = {'i8': (-2**7, 2**7 - 1), 'i16': (-2**15, 2**15 - 1), 'i32': (-2**31, 2**31 - 1), 'i64': (-2**63, 2**63 - 1), 'isize': (-2**63, 2**63 - 1),
        'u8': (0, 2**8 - 1), 'u16': (0, 2**16 - 1), 'u32': (0, 2**32 - 1), 'u64': (0, 2**64 - 1), 'usize': (0, 2**64 - 1)}
@@ -814,6 +856,7 @@ def run_c18(ctx):
         PO[0] = 'preserve_order' in engine.CONFIGS[cfg][0]
         part_pointer(ctx, cfg)
         part_index(ctx, cfg)
+        part_acc(ctx, cfg)
         part_eq(ctx, cfg)
         part_macro(ctx, cfg)
 
